@@ -1687,12 +1687,50 @@ def _execute(trace, prop, run_cfg, gen=None):
     return res
 
 
+def _subset_script(rng, spec, sw):
+    """C07: every subset of the model's genes (<= 6 genes -> <= 64 subsets), each knocked out inside its own context in a
+    seeded order, by a seeded mix of Gene.knock_out and knock_out_model_genes (objects | ids | indices)."""
+    genes = sorted({g for r in spec["rxns"] for g in gprtree.genes(r.get("tree"))})[:6]
+    subsets = [[g for i, g in enumerate(genes) if mask >> i & 1] for mask in range(1, 1 << len(genes))]
+    rng.shuffle(subsets)
+    queue = []
+    for sub in subsets:
+        order = list(sub)
+        rng.shuffle(order)
+        queue.append({"op": "enter", "actor": 0})
+        how = rng.choice(["single", "single", "together", "mixed"])
+        if how == "single":
+            queue += [{"op": "knock_out_gene", "actor": 0, "g": g} for g in order]
+        elif how == "together":
+            queue.append({"op": "knock_out_model_genes", "actor": 0, "genes": order, "as": rng.choice(["id", "obj"])})
+        else:
+            k = rng.randint(0, len(order))
+            queue += [{"op": "knock_out_gene", "actor": 0, "g": g} for g in order[:k]]
+            if order[k:]:
+                queue.append({"op": "knock_out_model_genes", "actor": 0, "genes": order[k:], "as": rng.choice(["id", "obj"])})
+        if rng.random() < 0.2 and spec["rxns"]:
+            queue.append({"op": "knock_out_rxn", "actor": 0, "r": rng.choice(spec["rxns"])["id"]})
+        queue.append({"op": rng.choice(["exit", "exit", "exit_exc"]), "actor": 0})
+    return queue
+
+
 def generate_and_run(run_seed, prop, tier, run_cfg):
     St = Streams(run_seed)
     sw = make_swarm(St("swarm"), prop, run_cfg)
     spec = gen_model_spec(St("model"), sw)
     trace = {"engine": "hist", "cfg": {"model": spec, "swarm": sw, "hash_seed": St("hash").getrandbits(32)}, "ops": []}
     rng = St("ops")
+    if prop == "C07" and St("swarm2").random() < (0.5 if tier == "thorough" else 0.15):
+        queue = _subset_script(St("script"), spec, sw)
+        sw["steps"] = len(queue)
+        sw["script"] = "all gene subsets"
+        it = iter(queue)
+
+        def scripted(H):
+            H.stats["probe:subset_script_step"] += 1
+            return next(it)
+
+        return _execute(trace, prop, run_cfg, gen=scripted)
     return _execute(trace, prop, run_cfg, gen=lambda H: gen_op(rng, H, sw))
 
 
